@@ -34,6 +34,9 @@ Frag ==
   @@ "slloop"  :> F("Fslloop" :> Slice("Fslloop"), {}, {})                   \* []EW -> []EW (element loop)
   @@ "slcast"  :> F("Fslcast" :> Slice("Fslcast"), {}, {})                   \* []int -> []int64 under :typecast
   @@ "sltags"  :> F("Fsltags" :> Slice("Fsltags"), {}, {})                   \* defined slice type
+  @@ "slptr"   :> F("Fslptr" :> Slice("Fslptr"), {}, {})                     \* []*int -> []*int (fresh array of the same pointers)
+  @@ "slstruct":> F("Fslstruct" :> Slice("Fslstruct"), {}, {})               \* []EN -> []EN
+  @@ "slnest"  :> F(("Fsn.L" :> Slice("Fsn.L")) @@ ("Fsn.K" :> Src("Fsn.K")), {}, {})   \* a slice member of a nested by-value struct
   @@ "nest"    :> F(("Fnest.X" :> Src("Fnest.X")) @@ ("Fnest.Y" :> Src("Fnest.Y")), {}, {})   \* member-wise, by value
   @@ "nestE"   :> F(("FnestE.X" :> Call("CvE2", Src("FnestE.X"))) @@ ("FnestE.Y" :> Src("FnestE.Y")), {"CvE2"}, {"CvE2"})
   @@ "nestE2"  :> F(("FnestD.In.X" :> Call("CvE3", Src("FnestD.In.X"))) @@ ("FnestD.In.Y" :> Src("FnestD.In.Y")) @@ ("FnestD.K" :> Src("FnestD.K")),
